@@ -12,6 +12,7 @@ mod c01;
 mod c02;
 mod c03;
 mod c09;
+mod c10;
 mod c11;
 mod c13;
 mod c14;
@@ -82,6 +83,15 @@ fn main() {
         ("search", "C09") => {
             let mut s = util::Search::new();
             c09::search(&tier, seed, &mut s);
+            s.finish();
+        }
+        ("corr", "C10") => {
+            let mut c = util::Corr::new();
+            c10::corr(&tier, seed, &mut c);
+        }
+        ("search", "C10") => {
+            let mut s = util::Search::new();
+            c10::search(&tier, seed, &mut s);
             s.finish();
         }
         ("corr", "C11") => {
